@@ -119,7 +119,7 @@ def _same_source(before, after):
     return all(before.get(k) == after.get(k) for k in before if k in ('index', 'columns', 'cols', 'vals', 'dt', 'name'))
 
 
-def run_case(cs, layout=None, cls=None, any_err=False):
+def run_case(cs, layout=None, cls=None, any_err=False, raw=False):
     f = s = None
     if 'f' in cs:
         f = P.build_frame(cs['f'], layout, cls=cls)
@@ -132,6 +132,8 @@ def run_case(cs, layout=None, cls=None, any_err=False):
         return {'k': 'mutated', 'what': 'source series changed by the call'}
     if any_err and res.get('k') == 'err':
         res = {'k': 'err', 'cat': 'any'}
+    if raw:
+        return res
     return normalise(res, cs)
 
 
